@@ -6,7 +6,7 @@ import sys
 
 VERIF = os.path.dirname(os.path.dirname(os.path.abspath(__file__)))
 sys.path.insert(0, VERIF)
-from checks import REGISTRY           # noqa: E402
+from checks import REGISTRY, DISABLED           # noqa: E402
 from checks.texts import TEXTS, NOT_BUILT_REASON, NOT_APPLICABLE   # noqa: E402
 
 PY = '/venv/bin/python'
@@ -17,7 +17,7 @@ def main():
     checks = []
     na = []
     for pid in props:
-        if pid in REGISTRY:
+        if pid in REGISTRY and pid not in DISABLED:
             t = TEXTS[pid]
             checks.append({
                 'property_id': pid,
@@ -50,7 +50,7 @@ def main():
         },
         'engines': [{
             'name': 'simos', 'path': 'simos/',
-            'serves_properties': sorted(REGISTRY),
+            'serves_properties': sorted(set(REGISTRY) - DISABLED),
             'kind_free_text': 'deterministic simulator: simulated kernel (semaphores, fds/pipes/sockets/poll, '
                               'process table, signals, clock) + baton-passing actors under a seeded scheduler; '
                               'real billiard code on top; seeded search with fault injection, replay and '
